@@ -280,6 +280,7 @@ type c07Opspec struct {
 	AllowN bool       `json:"allowN,omitempty"`
 	AllowK bool       `json:"allowK,omitempty"`
 	Del    bool       `json:"del,omitempty"`
+	Unset  bool       `json:"unset,omitempty"` // namespace: the plugin\'s unsetOnly option
 	Bm     []string   `json:"bm,omitempty"`
 }
 
@@ -531,7 +532,7 @@ func c07ExecOp(m resmap.ResMap, o c07Opspec, built [][]*resource.Resource, idx i
 			return p.Transform(m)
 		case "namespace":
 			p := c07MustConfig(builtins.NewNamespaceTransformerPlugin(),
-				fmt.Sprintf("metadata:\n  namespace: %q\nfieldSpecs:\n- path: metadata/namespace\n  create: true\n", o.Str))
+				fmt.Sprintf("metadata:\n  namespace: %q\nunsetOnly: %v\nfieldSpecs:\n- path: metadata/namespace\n  create: true\n", o.Str, o.Unset))
 			return p.Transform(m)
 		case "hash":
 			p := c07MustConfig(builtins.NewHashTransformerPlugin(), "")
@@ -631,7 +632,7 @@ func c07CoqOp(o c07Opspec, opTerms []string, st []c07ObsRes, hashTab [][2]string
 	case "suffix":
 		return "(OSuffix " + coqStr(o.Str) + ")"
 	case "namespace":
-		return "(ONamespace " + c07Qs(o.Str) + ")"
+		return "(ONamespace " + c07Qs(o.Str) + " " + coqBool(o.Unset) + ")"
 	case "hash":
 		parts := make([]string, len(hashTab))
 		for i, h := range hashTab {
@@ -755,7 +756,7 @@ func (g *c07gen) genOp(m resmap.ResMap) c07Opspec {
 	case k < 63:
 		return c07Opspec{Op: "suffix", Str: g.rng.Pick([]string{"-s", "-s", "", "y"})}
 	case k < 70:
-		return c07Opspec{Op: "namespace", Str: g.rng.Pick([]string{"x", "y", "x", "", "default"})}
+		return c07Opspec{Op: "namespace", Str: g.rng.Pick([]string{"x", "y", "x", "", "default"}), Unset: g.rng.Chance(40)}
 	case k < 75:
 		if g.rng.Chance(40) {
 			// adversarial: give another resource of the same kind and namespace the name a hashed one is about to get
@@ -809,6 +810,10 @@ func (g *c07gen) genOp(m resmap.ResMap) c07Opspec {
 					}
 					ia, ib := a.CurId(), b.CurId()
 					if ia.Gvk.Equals(ib.Gvk) && ia.IsNsEquals(ib) && ia.Name != ib.Name && ia.Name != "" {
+						if g.rng.Chance(60) {
+							// ... and let IgnoreLocal see the clash (it rebuilds the map of the kept resources)
+							g.pending = append(g.pending, c07Opspec{Op: "ignorelocal"})
+						}
 						return c07Opspec{Op: "rawrename", PName: tagOf(b), Str: ia.Name}
 					}
 				}
@@ -1027,6 +1032,17 @@ func runSeq07(r *Run, g *c07gen, sq *seq07, nOps int, toModel bool) {
 			}
 		}
 		if o.Op == "ignorelocal" {
+			// the resources IgnoreLocal keeps were Appended to a fresh map: they have pairwise distinct ids
+			kept := []c07ObsRes{}
+			for _, x := range after {
+				if v, ok := x.ann[c07LocalCfg]; x.empty || (ok && v != "false") {
+					continue
+				}
+				kept = append(kept, x)
+			}
+			if !c07IdsUnique(kept) {
+				report("ids_unique", "C07/ids_unique/ignorelocal-kept", "IgnoreLocal succeeded although two kept resources share an id: "+c07CoqState(after))
+			}
 			for _, x := range after {
 				if x.id.Kind == "" || (x.id.Name == "" && !strings.HasSuffix(x.id.Kind, "List")) {
 					report("wellformed", "C07/wellformed/ignorelocal", "resource without kind or name survived IgnoreLocal: "+c07CoqObs(x))
